@@ -7,6 +7,9 @@ package htlcswitch
 // conservation oracle judges the quiescent state.
 
 import (
+	"github.com/lightningnetwork/lnd/input"
+	"github.com/btcsuite/btcd/btcec/v2"
+	"net"
 	"bytes"
 	"context"
 	"crypto/sha256"
@@ -47,8 +50,9 @@ type verifC08Pay struct {
 	htlc     *lnwire.UpdateAddHTLC
 	firstHop lnwire.ShortChannelID
 
-	mu      sync.Mutex
-	sent    bool
+	mu       sync.Mutex
+	awaitGen int // generation of the network the newest result waiter is attached to
+	sent     bool
 	outcome string // "", "success", "fail", "notsent"
 	errStr  string
 }
@@ -73,6 +77,8 @@ type verifC08Mon struct {
 	incomingAdds map[verifC08Key]lntypes.Hash // adds that arrived at Bob
 	downFulfill  map[lntypes.Hash]bool        // downstream fulfill arrived at Bob
 	everAtBob    map[lntypes.Hash]bool        // the payment's add reached Bob
+	bobOutAdds   map[verifC08Key]lntypes.Hash // adds Bob sent (seen arriving at Alice/Carol)
+	downResolved map[lntypes.Hash]string      // a fulfill/fail for Bob's outgoing HTLC arrived at Bob
 	upSeen       map[verifC08Key]map[string]int
 	upSeenEpoch  map[verifC08Key]map[int]int
 
@@ -141,10 +147,18 @@ func (m *verifC08Mon) atBob(msg lnwire.Message) {
 		}
 		if x.ChanID == down {
 			m.downFulfill[h] = true
+			m.downResolved[h] = "settle"
 			m.logf("e%d ->B fulfill(down) hash=%x", m.epoch, h[:4])
 		}
 	case *lnwire.UpdateFailHTLC:
 		m.logf("e%d ->B fail chan=%x id=%d", m.epoch, x.ChanID[:3], x.ID)
+		if h, ok := m.bobOutAdds[verifC08Key{x.ChanID, x.ID}]; ok {
+			m.downResolved[h] = "fail"
+		}
+	case *lnwire.UpdateFailMalformedHTLC:
+		if h, ok := m.bobOutAdds[verifC08Key{x.ChanID, x.ID}]; ok {
+			m.downResolved[h] = "fail"
+		}
 	}
 }
 
@@ -159,6 +173,9 @@ func (m *verifC08Mon) atEdge(who string, msg lnwire.Message) {
 		hash lntypes.Hash
 	)
 	switch x := msg.(type) {
+	case *lnwire.UpdateAddHTLC:
+		m.bobOutAdds[verifC08Key{x.ChanID, x.ID}] = lntypes.Hash(x.PaymentHash)
+		return
 	case *lnwire.UpdateFulfillHTLC:
 		key, kind = verifC08Key{x.ChanID, x.ID}, "settle"
 		hash = lntypes.Hash(sha256.Sum256(x.PaymentPreimage[:]))
@@ -261,6 +278,38 @@ type verifC08Net struct {
 
 	// down[0]/down[1]: the links of channel A-B / B-C are currently removed
 	down [2]bool
+
+	// netMu: the harness' own calls into a switch (SendHTLC,
+	// GetAttemptResult) never overlap that switch's Stop. lnd's Switch adds
+	// to its WaitGroup in GetAttemptResult while Stop waits on it (see
+	// DESIGN 7.3, lifecycle race); under load that misuse panics the
+	// process ("WaitGroup is reused before previous Wait has returned"),
+	// which would end a shard for a reason outside C08.
+	netMu sync.RWMutex
+	gen   int // network generation, bumped by every cluster restart (under netMu)
+
+	// Byzantine downstream peer: the first update_fulfill_htlc carrying the
+	// preimage of byzHash that arrives at Bob gets one byte flipped.
+	byzMu   sync.Mutex
+	byzHash *lntypes.Hash
+	byzDone bool
+}
+
+func (v *verifC08Net) maybeCorrupt(m lnwire.Message) {
+	x, ok := m.(*lnwire.UpdateFulfillHTLC)
+	if !ok {
+		return
+	}
+	v.byzMu.Lock()
+	defer v.byzMu.Unlock()
+	if v.byzHash == nil || v.byzDone {
+		return
+	}
+	if lntypes.Hash(sha256.Sum256(x.PaymentPreimage[:])) != *v.byzHash {
+		return
+	}
+	x.PaymentPreimage[7] ^= 0x40
+	v.byzDone = true
 }
 
 func (v *verifC08Net) holdReestablish(m lnwire.Message) {
@@ -313,7 +362,7 @@ func (v *verifC08Net) install(t *testing.T) {
 		}
 	}
 	n.aliceServer.intersect(mk(0, "alice", func(m lnwire.Message) { v.mon.atEdge("A", m) }))
-	n.bobServer.intersect(mk(1, "bob", func(m lnwire.Message) { v.mon.atBob(m) }))
+	n.bobServer.intersect(mk(1, "bob", func(m lnwire.Message) { v.maybeCorrupt(m); v.mon.atBob(m) }))
 	n.carolServer.intersect(mk(2, "carol", func(m lnwire.Message) { v.mon.atEdge("C", m) }))
 }
 
@@ -330,6 +379,44 @@ func verifC08Cluster(t *testing.T, capSat btcutil.Amount) (*clusterChannels, [4]
 	b2, c, err := createTestChannel(t, bobPrivKey, carolPrivKey, capSat, capSat, 0, 0, secondChanID)
 	if err != nil {
 		return nil, [4]*testLightningChannel{}, err
+	}
+	// The fixture gives every channel END its own database and leaves the
+	// channels "pending". A node keeps all its channels in one database,
+	// which is also the switch's: only then can the switch reach the
+	// forwarding packages of both of Bob's channels (reforwardResponses at
+	// start-up, batched settle/fail acks), and it skips pending channels.
+	// So: move Bob's B-C channel into the database of his A-B channel and
+	// mark all four channel ends open.
+	bobDB := b1.channel.State().Db
+	st2 := b2.channel.State()
+	st2.Db = bobDB
+	bobAddr := &net.TCPAddr{IP: net.ParseIP("127.0.0.1"), Port: 18556}
+	if err := st2.SyncPending(bobAddr, 1); err != nil {
+		return nil, [4]*testLightningChannel{}, fmt.Errorf("move bob(B-C) into bob's db: %w", err)
+	}
+	for _, tc := range []*testLightningChannel{a, b1, b2, c} {
+		st := tc.channel.State()
+		if err := st.MarkAsOpen(st.ShortChanID()); err != nil {
+			return nil, [4]*testLightningChannel{}, fmt.Errorf("mark open: %w", err)
+		}
+	}
+	bobKeyPriv, _ := btcec.PrivKeyFromBytes(bobPrivKey)
+	signer := input.NewMockSigner([]*btcec.PrivateKey{bobKeyPriv}, nil)
+	pool := lnwallet.NewSigPool(2, signer)
+	if err := pool.Start(); err != nil {
+		return nil, [4]*testLightningChannel{}, err
+	}
+	t.Cleanup(func() { _ = pool.Stop() })
+	auxSigner := lnwallet.NewDefaultAuxSignerMock(t)
+	ptBC := b2.channel.ChannelPoint()
+	b2.restore = func() (*lnwallet.LightningChannel, error) {
+		st, err := bobDB.FetchChannel(ptBC)
+		if err != nil {
+			return nil, fmt.Errorf("fetch bob(B-C) from bob's db: %w", err)
+		}
+		return lnwallet.NewLightningChannel(signer, st, pool,
+			lnwallet.WithLeafStore(&lnwallet.MockAuxLeafStore{}),
+			lnwallet.WithAuxSigner(auxSigner))
 	}
 	return &clusterChannels{aliceToBob: a.channel, bobToAlice: b1.channel,
 		bobToCarol: b2.channel, carolToBob: c.channel}, [4]*testLightningChannel{a, b1, b2, c}, nil
@@ -360,6 +447,8 @@ func verifC08Start(t *testing.T, vc *verifCtx, r *verifRng, capSat btcutil.Amoun
 		incomingAdds: map[verifC08Key]lntypes.Hash{},
 		downFulfill:  map[lntypes.Hash]bool{},
 		everAtBob:    map[lntypes.Hash]bool{},
+		bobOutAdds:   map[verifC08Key]lntypes.Hash{},
+		downResolved: map[lntypes.Hash]string{},
 		upSeen:       map[verifC08Key]map[string]int{},
 		upSeenEpoch:  map[verifC08Key]map[int]int{},
 	}
@@ -385,10 +474,20 @@ func verifC08Start(t *testing.T, vc *verifCtx, r *verifRng, capSat btcutil.Amoun
 
 // restart stops the whole cluster (all in-flight messages are lost) and boots
 // a new one from the same databases, as TestChannelRetransmission does.
-func (v *verifC08Net) restart(t *testing.T) error {
+func (v *verifC08Net) restart(t *testing.T) error { return v.restartWith(t, -1) }
+
+// restartWith restarts the whole cluster; with keepDown 0 (A-B) or 1 (B-C)
+// the links of that channel are not brought back (the peer stays
+// disconnected after the restart), so that what the forwarder's switch owes
+// that channel's counterpart is re-forwarded by the switch itself
+// (reforwardResponses) and not by the channel's own link.
+func (v *verifC08Net) restartWith(t *testing.T, keepDown int) error {
 	old := v.n
 	regs := [3]*mockInvoiceRegistry{old.aliceServer.registry, old.bobServer.registry, old.carolServer.registry}
 	caches := [3]*mockPreimageCache{old.aliceServer.pCache, old.bobServer.pCache, old.carolServer.pCache}
+	v.netMu.Lock()
+	defer v.netMu.Unlock()
+	v.gen++
 	old.stop()
 	v.mon.mu.Lock()
 	v.mon.epoch++
@@ -413,6 +512,16 @@ func (v *verifC08Net) restart(t *testing.T) error {
 	v.n = n
 	v.down = [2]bool{}
 	v.install(t)
+	if keepDown >= 0 {
+		chanID := v.mon.chanAB
+		other := n.aliceServer
+		if keepDown == 1 {
+			chanID, other = v.mon.chanBC, n.carolServer
+		}
+		n.bobServer.htlcSwitch.RemoveLink(chanID)
+		other.htlcSwitch.RemoveLink(chanID)
+		v.down[keepDown] = true
+	}
 	return v.startNet()
 }
 
@@ -600,10 +709,14 @@ func (v *verifC08Net) startNet() error {
 			return err
 		}
 	}
-	return verifC08WaitEligible(map[string]*channelLink{
-		"alice": n.aliceChannelLink, "bob first": n.firstBobChannelLink,
-		"bob second": n.secondBobChannelLink, "carol": n.carolChannelLink,
-	})
+	links := map[string]*channelLink{}
+	if !v.down[0] {
+		links["alice"], links["bob first"] = n.aliceChannelLink, n.firstBobChannelLink
+	}
+	if !v.down[1] {
+		links["bob second"], links["carol"] = n.secondBobChannelLink, n.carolChannelLink
+	}
+	return verifC08WaitEligible(links)
 }
 
 func (v *verifC08Net) server(name byte) *mockServer {
@@ -698,11 +811,21 @@ func (v *verifC08Net) genPayment(r *verifRng, idx int) (*verifC08Pay, error) {
 
 // send launches the payment and waits for its result in a goroutine.
 func (v *verifC08Net) send(p *verifC08Pay, wg *sync.WaitGroup) {
-	sender := v.server(p.Dir[0])
 	wg.Add(1)
 	go func() {
 		defer wg.Done()
+		v.netMu.RLock()
+		p.mu.Lock()
+		p.awaitGen = v.gen
+		p.mu.Unlock()
+		sender := v.server(p.Dir[0])
 		err := sender.htlcSwitch.SendHTLC(p.firstHop, p.Pid, p.htlc)
+		var resultChan <-chan *PaymentResult
+		var rerr error
+		if err == nil {
+			resultChan, rerr = sender.htlcSwitch.GetAttemptResult(p.Pid, p.Hash, newMockDeobfuscator())
+		}
+		v.netMu.RUnlock()
 		p.mu.Lock()
 		p.sent = true
 		p.mu.Unlock()
@@ -712,18 +835,29 @@ func (v *verifC08Net) send(p *verifC08Pay, wg *sync.WaitGroup) {
 			p.mu.Unlock()
 			return
 		}
-		v.await(p, sender)
+		v.awaitResult(p, resultChan, rerr)
 	}()
 }
 
 func (v *verifC08Net) await(p *verifC08Pay, sender *mockServer) {
-	resultChan, err := sender.htlcSwitch.GetAttemptResult(p.Pid, p.Hash, newMockDeobfuscator())
+	v.netMu.RLock()
+	p.mu.Lock()
+	p.awaitGen = v.gen
+	p.mu.Unlock()
+	resultChan, err := v.server(p.Dir[0]).htlcSwitch.GetAttemptResult(p.Pid, p.Hash, newMockDeobfuscator())
+	v.netMu.RUnlock()
+	v.awaitResult(p, resultChan, err)
+}
+
+func (v *verifC08Net) awaitResult(p *verifC08Pay, resultChan <-chan *PaymentResult, err error) {
 	if err != nil {
 		p.mu.Lock()
-		if err == ErrPaymentIDNotFound {
-			p.outcome, p.errStr = "notsent", err.Error()
-		} else {
-			p.outcome, p.errStr = "", "GetAttemptResult: "+err.Error()
+		if p.outcome == "" {
+			if err == ErrPaymentIDNotFound {
+				p.outcome, p.errStr = "notsent", err.Error()
+			} else {
+				p.errStr = "GetAttemptResult: " + err.Error()
+			}
 		}
 		p.mu.Unlock()
 		return
@@ -731,9 +865,21 @@ func (v *verifC08Net) await(p *verifC08Pay, sender *mockServer) {
 	res, ok := <-resultChan
 	p.mu.Lock()
 	defer p.mu.Unlock()
+	if !ok {
+		// the switch this waiter was attached to stopped; a waiter on
+		// the next network generation takes over
+		if p.outcome == "" {
+			p.errStr = "switch shutting down"
+		}
+		return
+	}
+	if p.outcome == "notsent" {
+		p.outcome = ""
+	}
 	switch {
-	case !ok:
-		p.outcome, p.errStr = "", "switch shutting down"
+	case p.outcome != "" && p.outcome != "fail":
+		// a terminal success/badpreimage verdict is never replaced
+	case res.Error != nil && p.outcome == "fail":
 	case res.Error != nil:
 		p.outcome, p.errStr = "fail", res.Error.Error()
 	default:
@@ -789,6 +935,99 @@ func (v *verifC08Net) holder(p *verifC08Pay, stop <-chan struct{}, wg *sync.Wait
 			}
 			return
 		case <-time.After(10 * time.Millisecond):
+		}
+	}
+}
+
+func verifC08HasIncoming(ch *channeldb.OpenChannel, hash lntypes.Hash) bool {
+	for _, hs := range [][]channeldb.HTLC{ch.LocalCommitment.Htlcs, ch.RemoteCommitment.Htlcs} {
+		found := false
+		for _, h := range hs {
+			if h.Incoming && h.RHash == [32]byte(hash) {
+				found = true
+			}
+		}
+		if !found {
+			return false
+		}
+	}
+	return true
+}
+
+// checkAway runs at a stable point while exactly one channel is down (its
+// peer is away) and the other is up: an incoming HTLC on the live channel
+// whose outgoing HTLC on the dead channel was resolved by the peer and is
+// irrevocably gone from the forwarder's commitments must have been resolved
+// upstream as well; waiting for the absent peer would leave it dangling.
+func (v *verifC08Net) checkAway(vc *verifCtx, pays []*verifC08Pay, wit func() any) {
+	if v.down[0] == v.down[1] {
+		return
+	}
+	vc.Count("oracle_peer_away_quiescence", 1)
+	ab, err1 := v.mon.fetchBobAB()
+	bc, err2 := v.mon.fetchBobBC()
+	if err1 != nil || err2 != nil {
+		vc.Diag("fetch_bob_channel_failed", fmt.Sprint(err1, err2))
+		return
+	}
+	for _, p := range pays {
+		if !p.forwarded() {
+			continue
+		}
+		out, in, outDown := bc, ab, v.down[1]
+		if p.Dir == "CA" {
+			out, in, outDown = ab, bc, v.down[0]
+		}
+		if !outDown {
+			continue
+		}
+		v.mon.mu.Lock()
+		how := v.mon.downResolved[p.Hash]
+		v.mon.mu.Unlock()
+		if how == "" {
+			continue
+		}
+		if has, _ := verifC08HasOutgoing(out, p.Hash); has {
+			continue
+		}
+		if verifC08HasIncoming(in, p.Hash) {
+			// describe what the forwarder holds for this HTLC
+			info := ""
+			if pkgs, err := out.LoadFwdPkgs(); err == nil {
+				for _, pk := range pkgs {
+					for k, lu := range pk.SettleFails {
+						id := uint64(1 << 62)
+						switch m := lu.UpdateMsg.(type) {
+						case *lnwire.UpdateFulfillHTLC:
+							id = m.ID
+						case *lnwire.UpdateFailHTLC:
+							id = m.ID
+						}
+						info += fmt.Sprintf(" [outpkg h=%d state=%d sf#%d id=%d acked=%v]", pk.Height, pk.State, k, id,
+							pk.SettleFailFilter.Contains(uint16(k)))
+					}
+				}
+			} else {
+				info += " [LoadFwdPkgs: " + err.Error() + "]"
+			}
+			cm := v.n.bobServer.htlcSwitch.circuits.(*circuitMap)
+			cm.mtx.RLock()
+			for k, c := range cm.pending {
+				if c.PaymentHash == [32]byte(p.Hash) {
+					_, closing := cm.closed[k]
+					info += fmt.Sprintf(" [circuit in=%v out=%v loaded=%v closing=%v]", k, c.Outgoing, c.LoadedFromDisk, closing)
+				}
+			}
+			cm.mtx.RUnlock()
+			for li, l := range []*channelLink{v.n.firstBobChannelLink, v.n.secondBobChannelLink} {
+				info += fmt.Sprintf(" [boblink%d eligible=%v failed=%v]", li, l.EligibleToForward(), l.failed)
+			}
+			vc.Diag("peer_away_detail", info)
+			vc.Violation("nothing_dangling", "resolved-downstream-pending-upstream-while-peer-away:"+how,
+				fmt.Sprintf("payment %d (%s %s): the outgoing HTLC got a %s from the downstream peer and is gone from the "+
+					"forwarder's commitments, the downstream peer is disconnected, the network is stable, yet the incoming "+
+					"HTLC is still pending on the live upstream channel", p.Idx, p.Dir, p.Kind, how), wit())
+			return
 		}
 	}
 }
@@ -878,11 +1117,11 @@ func verifC08Case(t *testing.T, vc *verifCtx, i int) {
 	var plan []string
 	nRestarts, nFlaps := 0, 0
 	for k := 0; k < nFaults; k++ {
-		op := []string{"fAB", "fBC", "dAB", "dBC", "dAB", "dBC", "u", "R", "R"}[r.Intn(9)]
-		if op == "R" && (nRestarts >= 2 || os.Getenv("VERIF_C08_NORESTART") != "") {
+		op := []string{"fAB", "fBC", "dAB", "dBC", "dAB", "dBC", "u", "R", "R", "RdAB", "RdBC"}[r.Intn(11)]
+		if op[0] == 'R' && (nRestarts >= 2 || os.Getenv("VERIF_C08_NORESTART") != "") {
 			op = "fBC"
 		}
-		if op == "R" {
+		if op[0] == 'R' {
 			nRestarts++
 		} else {
 			nFlaps++
@@ -898,7 +1137,11 @@ func verifC08Case(t *testing.T, vc *verifCtx, i int) {
 	if err != nil {
 		verifC08Fatalf(t, "cluster start: %v", err)
 	}
-	defer func() { v.n.stop() }()
+	defer func() {
+		v.netMu.Lock()
+		v.n.stop()
+		v.netMu.Unlock()
+	}()
 	start := v.snapshot()
 
 	var pays []*verifC08Pay
@@ -938,10 +1181,14 @@ func verifC08Case(t *testing.T, vc *verifCtx, i int) {
 	requery := func() {
 		// old result waiters return when the old switch stops; re-query
 		// every payment without a terminal result on the new switch.
-		wg.Wait()
+		// (waiters that slipped onto the new network are left alone: they
+		// may legitimately wait for a long time)
+		v.netMu.RLock()
+		gen := v.gen
+		v.netMu.RUnlock()
 		for _, p := range pays {
 			p.mu.Lock()
-			need := p.outcome == ""
+			need := p.outcome == "" && p.awaitGen != gen
 			p.mu.Unlock()
 			if !need {
 				continue
@@ -973,11 +1220,20 @@ func verifC08Case(t *testing.T, vc *verifCtx, i int) {
 			}
 		case "w": // debugging aid (VERIF_C08_PLAN only)
 			time.Sleep(700 * time.Millisecond)
-		case "R":
+		case "R", "RdAB", "RdBC":
 			if v.down[0] || v.down[1] {
 				vc.Count("restart_with_link_down", 1)
 			}
-			err = v.restart(t)
+			switch op {
+			case "R":
+				err = v.restart(t)
+			case "RdAB":
+				err = v.restartWith(t, 0)
+				vc.Count("restart_keeping_link_down", 1)
+			case "RdBC":
+				err = v.restartWith(t, 1)
+				vc.Count("restart_keeping_link_down", 1)
+			}
 			vc.Count("cluster_restarts", 1)
 			if err == nil {
 				requery()
@@ -985,6 +1241,16 @@ func verifC08Case(t *testing.T, vc *verifCtx, i int) {
 		}
 		if err != nil {
 			verifC08Fatalf(t, "fault %s: %v", op, err)
+		}
+	}
+	if v.down[0] != v.down[1] {
+		// one peer is away: judge the stable state before it comes back
+		if _, idle := v.waitIdle(20, 120*time.Second); idle {
+			v.checkAway(vc, pays, func() any {
+				v.mon.mu.Lock()
+				defer v.mon.mu.Unlock()
+				return map[string]any{"faults": strings.Join(plan, ","), "down": v.down, "trace": v.mon.trace}
+			})
 		}
 	}
 	for _, ab := range []bool{true, false} {
